@@ -183,18 +183,21 @@ pub fn native_minmax<T, const LESS: bool>(
         Value::Object(o) => unsafe {
             match &o.as_ref().body {
                 CaoLangObjectBody::Table(t) => {
-                    let Some(first) = t.iter().next() else {
+                    // the key function is free to change the table (or a table used as one of
+                    // its keys): work on a copy of the rows
+                    let rows: Vec<(Value, Value)> = t.iter().map(|(k, v)| (*k, *v)).collect();
+                    let Some(first) = rows.first() else {
                         return Ok(Value::Nil);
                     };
-                    vm.stack_push(*first.1)?;
-                    vm.stack_push(*first.0)?;
+                    vm.stack_push(first.1)?;
+                    vm.stack_push(first.0)?;
                     // the keys are only known to this function, and the key function may
                     // allocate, and therefore collect: the best key so far is guarded
                     let mut max_key = vm.run_function(key_fn)?;
                     let mut _max_key_guard = guard_value(max_key);
                     let mut i = 0;
 
-                    for (j, (k, value)) in t.iter().enumerate().skip(1) {
+                    for (j, (k, value)) in rows.iter().enumerate().skip(1) {
                         vm.stack_push(*value)?;
                         vm.stack_push(*k)?;
                         let key = vm.run_function(key_fn)?;
@@ -204,8 +207,7 @@ pub fn native_minmax<T, const LESS: bool>(
                             _max_key_guard = guard_value(key);
                         }
                     }
-                    let k = t.nth_key(i);
-                    let v = *t.get(&k).unwrap();
+                    let (k, v) = rows[i];
                     let mut result = vm.init_table()?;
                     let t = result.0.as_mut().as_table_mut().unwrap();
                     t.insert(vm.init_string("key")?, k)?;
@@ -235,11 +237,13 @@ pub fn native_sorted<T>(
                 CaoLangObjectBody::Table(t) => {
                     // TODO:
                     // sort in place?
-                    let mut result = Vec::with_capacity(t.len());
+                    // the key function is free to change the table: work on a copy of the rows
+                    let rows: Vec<(Value, Value)> = t.iter().map(|(k, v)| (*k, *v)).collect();
+                    let mut result = Vec::with_capacity(rows.len());
                     // the keys are only known to this function, and the key function may
                     // allocate, and therefore collect: they are guarded until the order is known
-                    let mut key_guards = Vec::with_capacity(t.len());
-                    for (k, v) in t.iter() {
+                    let mut key_guards = Vec::with_capacity(rows.len());
+                    for (k, v) in rows.iter() {
                         vm.stack_push(*v)?;
                         vm.stack_push(*k)?;
                         let key = vm.run_function(key_fn)?;
